@@ -26,7 +26,8 @@ type Config struct {
 	SolverTimeoutMs int
 	MapOrderFuncs   []string // functions in which map iteration order is arbitrary
 	Solver          string
-	PoolReuse       bool // sync.Pool.Get may return any previously Put object
+	Tier            string // quick | thorough
+	PoolReuse       bool   // sync.Pool.Get may return any previously Put object
 }
 
 func DefaultConfig() Config {
@@ -166,6 +167,7 @@ type Worker struct {
 	stdErrs      map[string]value
 	FuncsEntered map[string]int
 	CoversHit    map[string]bool
+	Regions      map[string][]*Region // harness|assert -> regions
 	Unsupported  map[string]int
 }
 
